@@ -28,14 +28,16 @@ RULE = (
     "commutes are issued against the same relation object.  In 30 % of the cases the predicate objects of the pair "
     "are first handed to another operation (a join whose fixed operand supplies some of their columns), as a user "
     "reusing a predicate object would; equal predicates share one object within a case.  The new operation may be a "
-    "user-defined RowFilter / Reordering too (whatever commute() they inherit is judged like any other). "
+    "user-defined RowFilter / Reordering too (whatever commute() they inherit is judged like any other).  In 20 % of "
+    "the cases the existing operation sits on a tree of 1-3 operations over the leaf (35 % of those: a sort on a column, a "
+    "projection dropping it and a calculation re-creating its tag); such reports are judged on the tree's actual rows only. "
     "  Rows of a fixed join operand are read from the leaf object the reported operation actually holds (leaves may share a name and compare equal while holding different rows). "
 )
 ASSUMPTIONS = [
     "interpreter vmon/interp.py (full-row deduplication; witness rows satisfy the key functional dependency)",
     "commutators are specified for order-preserving engines, so lists are compared exactly",
 ]
-MIN_OBS = {"repeat_commutes_checked": 500, "predicates_used_elsewhere_first": 300, "witness_targets_evaluated": 2000, "refused": 100, "full": 300, "partial": 20}
+MIN_OBS = {"repeat_commutes_checked": 500, "commutes_on_tree_targets": 2000, "predicates_used_elsewhere_first": 300, "witness_targets_evaluated": 2000, "refused": 100, "full": 300, "partial": 20}
 KINDS = ["calc", "dedup", "proj", "sel", "slice", "sort", "join", "calc", "dedup", "proj", "sel", "slice", "sort", "join", "cap", "rev"]  # new operation; extension operations 1 in 8
 CURRENT_KINDS = ["calc", "dedup", "proj", "sel", "slice", "sort", "cap", "rev"]  # incl. extension operations
 _state: dict = {}
@@ -144,6 +146,49 @@ def gen_case(rng, tier):
         if e is not None:
             extra.append(e)
     case = {"tcols": tcols, "rows": rows, "current": cur, "new": new, "extra": extra}
+    if rng.random() < 0.2 and cur[0] != "join" and new[0] != "join":
+        # the existing operation sits on a TREE (0-3 operations over the leaf), not on a leaf: a report
+        # may use what it finds upstream, and has to be right for that very target
+        pcols, prefix = list(tcols), []
+        if rng.random() < 0.35 and len(tcols) >= 2:
+            # directed: sort on a column, project it away, re-create its tag from another column
+            c0 = rng.choice([c for c in tcols if is_key(c)] or tcols)
+            others = [c for c in tcols if c != c0]
+            prefix = [["sort", [[["ref", c0], rng.random() < 0.5]]], ["proj", others], ["calc", c0, rng.choice([["neg", ["ref", others[0]]], ["mul", ["ref", others[0]], ["ref", others[0]]]])]]
+        else:
+            for _ in range(rng.randint(1, 3)):
+                op = gen_op(rng, rng.choice(["sort", "proj", "calc", "sel", "dedup", "sort"]), pcols, ["e", "f"] + [c for c in pool if c not in pcols], [])
+                if op is None:
+                    continue
+                prefix.append(op)
+                if op[0] == "proj":
+                    pcols = list(op[1])
+                elif op[0] == "calc":
+                    pcols = sorted(set(pcols) | {op[1]})
+        if prefix:
+            end = set(tcols)
+            for op in prefix:
+                end = set(op[1]) if op[0] == "proj" else (end | {op[1]} if op[0] == "calc" else end)
+            if end and any(is_key(c) for c in end):
+                # the pair is generated again for the columns the tree exposes
+                for _ in range(20):
+                    cur2 = gen_op(rng, rng.choice([k for k in CURRENT_KINDS]), sorted(end), ["e", "f"], [])
+                    if cur2 is not None:
+                        break
+                ccols2 = set(end)
+                if cur2 is not None:
+                    if cur2[0] == "calc":
+                        ccols2.add(cur2[1])
+                    elif cur2[0] == "proj":
+                        ccols2 = set(cur2[1])
+                    new2 = None
+                    for _ in range(20):
+                        new2 = gen_op(rng, rng.choice(["calc", "dedup", "proj", "sel", "slice", "sort", "sort"]), ccols2, ["e", "f", "g"] + sorted(set(tcols) - ccols2) * 2, [])
+                        if new2 is not None:
+                            break
+                    if new2 is not None:
+                        case.update(prefix=prefix, current=cur2, new=new2, extra=[])
+                        case.pop("prior_use", None)
     if rng.random() < 0.3:
         case["prior_use"] = rng.randint(0, 15)
     return case
@@ -258,6 +303,16 @@ def run_case(case):
         except Exception as exc:  # noqa: BLE001
             out["violations"].append({"kind": "prior_use_raised", "detail": exc_str(exc)})
             return out
+    nonleaf = False
+    for spec in case.get("prefix", []):
+        try:
+            pre, _ = to_op(spec, it)
+            nxt = pre.apply(target)
+        except R.RelationalAlgebraError:
+            out["skip"] = "prefix_invalid"
+            return out
+        nonleaf = nonleaf or nxt is not target
+        target = nxt
     try:
         cur_op, cur_fixed = to_op(case["current"], it)
         if cur_fixed:
@@ -298,7 +353,9 @@ def run_case(case):
     except Exception as exc:  # noqa: BLE001
         out["violations"].append({"kind": "commute_raised", "detail": f"{exc_str(exc)} new={operation} current={current}"})
         return out
-    vs = mon.check_commute(operation, current, c, leaf_rows2, base_rows=rows)
+    if nonleaf:
+        out["counters"]["commutes_on_tree_targets"] = 1
+    vs = mon.check_commute(operation, current, c, leaf_rows2, base_rows=None if nonleaf else rows, single_witness=nonleaf)
     mon.drain()
     out["violations"].extend(vs)
     out["counters"].update(mon.COUNTERS)
